@@ -342,3 +342,141 @@ def first_diff(got, exp):
 def features(prog):
     js = str(prog)
     return {k for k in ("for", "while", "cond", "mcond", "adjfn", "ctrlfn", "meas", "U", "P") if f"'t': '{k}'" in js}
+
+
+# ---------------------------------------------------------------------- programs as Python SOURCE with native control flow
+# (for make_plxpr(..., autograph=True): autograph needs the source of the function; the same function run under
+#  make_qscript is the program "built directly with tapes" - plain Python for / while / if)
+def _wsum(ivn):
+    return "".join(f" + {k + 1} * {v}" for k, v in enumerate(ivn))
+
+
+def _src_wire(p, ivn):
+    return f"({H(p)}{_wsum(ivn)}) % {NW}"
+
+
+def _src_angle(p, ivn):
+    return f"x * {1 + H(p) % 4}" + (f" + y * {ivn[0]}" if ivn else " + 0.0")
+
+
+def _src_expr(e, p, ivn, flav):
+    t = e["t"]
+    if t == "G":
+        k = sum(p) % 5
+        w = _src_wire(p, ivn)
+        if k == 3:
+            return f"qp.IsingXX({_src_angle(p, ivn)}, wires=[{w}, ({w} + 1) % {NW}])"
+        if k == 4:
+            return f"qp.RX({_src_angle(p, ivn)}, wires={w})"
+        return f"qp.{GATES[k]}(wires={w})"
+    alt = (sum(p) + flav) % 2 == 1
+    if t == "U":
+        a = _src_expr(e["c"][0][0], p + [1], ivn, flav)
+        k = pick(UK, p, flav)
+        if k == "adj":
+            return f"qp.adjoint({a})"
+        if k == "ctrl":
+            return f"qp.ctrl({a}, control={ctrl_wire(p)}" + (", control_values=[0])" if alt else ")")
+        if k == "pow":
+            return f"({a}) ** 2" if alt else f"qp.pow({a}, 2)"
+        child = e["c"][0][0]
+        child_is_sprod = child["t"] == "U" and pick(UK, p + [1], flav) == "sprod"
+        return f"2.0 * ({a})" if alt and not child_is_sprod else f"qp.s_prod(2.0, {a})"
+    if t == "P":
+        a = _src_expr(e["c"][0][0], p + [1], ivn, flav)
+        b = _src_expr(e["c"][1][0], p + [2], ivn, flav)
+        if pick(PK, p, flav) == "prod":
+            return f"({a}) @ ({b})" if alt else f"qp.prod({a}, {b})"
+        return f"({a}) + ({b})" if alt else f"qp.sum({a}, {b})"
+    raise ValueError(t)
+
+
+def _src_block(b, p, ivn, flav, dyn, ind, out, rets):
+    for j, s in enumerate(b, 1):
+        _src_stmt(s, p + [j], ivn, flav, dyn, ind, out, rets, top=(p == []))
+
+
+def _src_stmt(s, p, ivn, flav, dyn, ind, out, rets, top):
+    t = s["t"]
+    tag = "_".join(map(str, p))
+    K = " + k" if dyn else ""
+    if t == "do":
+        out.append(f"{ind}{_src_expr(s['c'][0][0], p + [1], ivn, flav)}")
+    elif t == "meas":
+        if s["c"]:
+            out.append(f"{ind}qp.{pick(MK, p, flav)}({_src_expr(s['c'][0][0], p + [1], ivn, flav)})")
+        else:
+            out.append(f"{ind}qp.probs(wires=[{_src_wire(p, ivn)}])")
+    elif t == "for":
+        lo, hi, st, carry = s["n"]
+        forms = [f"{lo}{K}, {hi}{K}, {st}"] + ([f"{lo}{K}, {hi}{K}"] if st == 1 else []) + ([f"{hi}{K}"] if st == 1 and lo == 0 else [])
+        args = forms[(sum(p) + flav) % len(forms)]
+        i, a = f"i_{tag}", f"a_{tag}"
+        if carry:
+            out.append(f"{ind}{a} = {CARRY0}")
+        if any(f"'t': '{k}'" in str(s["c"][0]) for k in ("mcond", "adjfn", "ctrlfn")):
+            # autograph restriction: a loop variable read by a function defined inside the loop body must exist before the
+            # loop (otherwise AutoGraphError "potentially uninitialized")
+            out.append(f"{ind}{i} = 0")
+        out.append(f"{ind}for {i} in range({args}):")
+        _src_block(s["c"][0], p + [1], ([i, a] if carry else [i]) + ivn, flav, dyn, ind + "    ", out, rets)
+        if carry:
+            out.append(f"{ind}    {a} = {a} + {i} + 1")
+            if top:
+                rets.append(a)
+    elif t == "while":
+        x0, k, d = s["n"]
+        v = f"v_{tag}"
+        out.append(f"{ind}{v} = {x0}{K}")
+        out.append(f"{ind}while {v} < {k}{K}:")
+        _src_block(s["c"][0], p + [1], [v] + ivn, flav, dyn, ind + "    ", out, rets)
+        out.append(f"{ind}    {v} = {v} + {d}")
+        if top:
+            rets.append(v)
+    elif t == "cond":
+        i = ivn[0] if ivn else "0"
+        if dyn:
+            val = {0: "k != 0", 1: "k == 0", 2: f"({i} + k) % 2 == 0", 3: f"{i} + k > 0"}
+        else:
+            val = {0: "False", 1: "True", 2: f"{i} % 2 == 0", 3: f"{i} > 0"}
+        for j, c in enumerate(s["n"]):
+            out.append(f"{ind}{'if' if j == 0 else 'elif'} {val[c]}:")
+            _src_block(s["c"][j], p + [j + 1], ivn, flav, dyn, ind + "    ", out, rets)
+        if len(s["c"]) > len(s["n"]):
+            out.append(f"{ind}else:")
+            _src_block(s["c"][-1], p + [len(s["c"])], ivn, flav, dyn, ind + "    ", out, rets)
+    elif t in ("mcond", "adjfn", "ctrlfn"):
+        names = []
+        for j in range(len(s["c"])):
+            fn = f"f_{tag}_{j + 1}"
+            names.append(fn)
+            out.append(f"{ind}def {fn}():")
+            _src_block(s["c"][j], p + [j + 1], ivn, flav, dyn, ind + "    ", out, rets)
+        if t == "mcond":
+            out.append(f"{ind}m_{tag} = qp.measure(120 + ({H(p)}{_wsum(ivn)}) % 4)")
+            out.append(f"{ind}qp.cond(m_{tag}, {', '.join(names)})()")
+        elif t == "adjfn":
+            out.append(f"{ind}qp.adjoint({names[0]})()")
+        else:
+            out.append(f"{ind}qp.ctrl({names[0]}, control={ctrl_wire(p, fn=True)})()")
+    else:
+        raise ValueError(t)
+
+
+def source(prog, flav, dyn, name):
+    """Python source of the program as a function name(x, y, k) with native for / while / if"""
+    out, rets = [f"def {name}(x, y, k):"], []
+    _src_block(prog, [], [], flav, dyn, "    ", out, rets)
+    out.append("    return (" + "".join(r + ", " for r in rets) + ")")
+    return "\n".join(out) + "\n"
+
+
+def write_module(path, items):
+    """items: [(name, prog, flav, dyn)] -> a module file with one function per program; returns the imported module"""
+    import importlib.util
+    text = "import pennylane as qp\n\n\n" + "\n\n".join(source(p, f, d, n) for n, p, f, d in items)
+    path.write_text(text)
+    spec = importlib.util.spec_from_file_location(path.stem, str(path))
+    mod = importlib.util.module_from_spec(spec)
+    spec.loader.exec_module(mod)
+    return mod
